@@ -605,6 +605,9 @@ func genLocCase(r *rand.Rand, prof string) Case {
 		}
 	}
 	c := Case{"profile": prof, "locs": locs, "ops": ops}
+	if prof == "expiry" {
+		c["phase10"] = pick(r, 1, 6).(int)
+	}
 	if prof == "durable" && r.Intn(2) == 0 {
 		c["crash"] = true // the process "dies" at the failing storage call: reload right after it
 	}
@@ -809,6 +812,18 @@ func execLocCase(c Case) {
 			fs.armed = true
 			fs.mu.Unlock()
 		}
+	}
+	if ph, ok := c["phase10"]; ok {
+		// timed cases start at a chosen phase of the wall-clock second (sleeps are whole seconds, so
+		// the phase is kept): expiry instants are whole seconds, and code that rounds instead of
+		// truncating only shows in the second half of a second
+		want := time.Duration(num(ph)) * time.Second / 10 // (tenths of a second)
+		now := time.Now()
+		at := now.Truncate(time.Second).Add(want)
+		if at.Before(now) {
+			at = at.Add(time.Second)
+		}
+		time.Sleep(at.Sub(now))
 	}
 	var done []interface{}
 	for k, oi := range list(c["ops"]) {
